@@ -1,6 +1,6 @@
 (* Model/FieldsIR.v -- a small deep-embedded language, large enough for the bodies of
    pydoctor/epydoc2stan.py : FieldHandler._report_unexpected_argument, _handle_param_name, _handle_param_not_found,
-   every handle_<tag> method and handleUnknownField, and its interpreter.  Gen/FieldsCode.v (written by
+   every handle_<tag> method, handleUnknownField and resolve_types, and its interpreter.  Gen/FieldsCode.v (written by
    harness/gen/gen_c09_code.py on every run, fail-closed) holds those bodies translated statement by statement from
    the CURRENT source; Proofs/FieldsIRProofs.v proves that interpreting them is the hand-written Model/Fields.v.
    Definitions only.
@@ -18,7 +18,17 @@
      field.source.annotations / .constructor_params (their keys), _get_docformat(self.obj) in ('google', 'numpy')
      field.source is self.obj            (the docstring is not inherited: both are the value VTheObj)
      attrs classes ReturnDesc / FieldDesc / ParamDesc / KeywordDesc / RaisesDesc / ParamType: records of 4 attributes
-     dict / list / defaultdict(list) operations on the attributes of self *)
+     dict / list / defaultdict(list) operations on the attributes of self
+   and for resolve_types:
+     {param.name: param for param in self.parameter_descs}   Model.Fields.params_dict: a later description of the same
+                                         name replaces the value, the key object and its position stay
+     enumerate(self.types.items()), dict.pop(k) / KeyError, dict.values(), list.append / += / remove (== of attrs classes)
+     isinstance(x, KeywordArgument), isinstance(p, KeywordDesc), self.obj.kind is DocumentableKind.METHOD / CLASS_METHOD
+     _SignatureDesc.is_documented (pinned by the translator: body or type_origin is FROM_DOCSTRING)
+     descriptions are VALUES: `param.type = ..` on a description popped from `params` is not seen through the old
+       self.parameter_descs -- sound here because that list is replaced whenever `params` was not empty (any_info);
+       sampled by the fields_ir leg of the correspondence check
+     `x if c else y` is hoisted by the translator into an assignment to a fresh local under `if c` *)
 From Coq Require Import ZArith NArith List Bool Arith.
 From PydoctorVerif Require Import Base.Sexp Model.FieldTypes Gen.TablesC09 Model.Fields.
 Import ListNotations.
@@ -36,7 +46,9 @@ Inductive val :=
 | VOrigin (o : origin)
 | VTheObj                      (* self.obj and field.source *)
 | VObj (c : cls) (name typ body org : val)
-| VList (l : list val).
+| VList (l : list val)
+| VInt (n : nat)
+| VDict (d : list (pname * val)).   (* a dict keyed by parameter names (keys compare by their text) *)
 
 (* the attributes of self *)
 Inductive sattr := AReturn | AYields | ATypes | AParams | ARaises | AWarns | ASeeAlsos | ANotes | AAuthors | ASinces | AUnknowns.
@@ -55,7 +67,11 @@ Inductive expr :=
 | EUnknownExc                    (* tags.span(class_='undocumented')("Unknown exception") *)
 | ELstrip (e : expr)             (* e.lstrip('*') *)
 | EConcat (l : list expr)        (* %-format / f-string / + on str *)
-| ESigNames | ECtorNames.        (* field.source.annotations / field.source.constructor_params (their keys) *)
+| ESigNames | ECtorNames         (* field.source.annotations / field.source.constructor_params (their keys) *)
+| EBool (b : bool) | EInt (n : nat) | EEmptyList
+| EFld (e : expr) (fl : ofld)    (* e.name / e.type / e.body / e.type_origin;  ParamType: e.stan / e.origin *)
+| EParamsByName                  (* {param.name: param for param in self.parameter_descs} *)
+| EValues (e : expr).            (* e.values() *)
 
 Inductive cond :=
 | CTruthy (e : expr) | CNot (c : cond) | CAnd (a b : cond) | COr (a b : cond)
@@ -66,7 +82,11 @@ Inductive cond :=
 | CIsInstance (e : expr) (k : objclass)
 | CNoneInBases                   (* None in source.baseobjects *)
 | CInCtor (e : expr)             (* e in source.constructor_params *)
-| CDocformatGN.                  (* _get_docformat(self.obj) in ('google', 'numpy') *)
+| CDocformatGN                   (* _get_docformat(self.obj) in ('google', 'numpy') *)
+| CIsKwName (e : expr)           (* isinstance(e, KeywordArgument) *)
+| CIsCls (e : expr) (c : cls)    (* isinstance(e, KeywordDesc) *)
+| CKindIs (k : fkind)            (* self.obj.kind is model.DocumentableKind.METHOD / CLASS_METHOD *)
+| CIsDocumented (e : expr).      (* e.is_documented() *)
 
 Inductive meth := MUnexpectedArg | MParamName | MParamNotFound.
 
@@ -85,7 +105,14 @@ Inductive stmt :=
 | SReport (e : expr)                                       (* field.report(e) *)
 | SIf (c : cond) (th el : stmt)
 | SReturn (e : expr)
-| SFor (x : var) (e : expr) (body : stmt).                 (* for x[, _] in e[.items()]: body *)
+| SFor (x : var) (e : expr) (body : stmt)                  (* for x[, _] in e[.items()]: body *)
+| SForEnumItems (i k v : var) (a : sattr) (body : stmt)    (* for i, (k, v) in enumerate(self.a.items()): body *)
+| SContinue
+| STryPop (x d : var) (k : expr) (handler els : stmt)      (* try: x = d.pop(k)  except KeyError: handler  else: els *)
+| SSetVarFld (x : var) (fl : ofld) (e : expr)              (* x.fl = e *)
+| SVarAppend (x : var) (e : expr)                          (* x.append(e) *)
+| SVarExtend (x : var) (e : expr)                          (* x += e   (lists) *)
+| SRemove (a : sattr) (e : expr).                          (* self.a.remove(e) *)
 
 (* ---- values <-> the attributes of the model ------------------------------------------------------------------------- *)
 Definition to_body (v : val) : option (option nat) :=
@@ -136,6 +163,22 @@ Definition pdesc_of (v : val) : option pdesc :=
   | _ => None
   end.
 
+Definition val_of_pdesc (p : pdesc) : val :=
+  VObj (if pd_kw p then KKeywordDesc else KParamDesc) (VName (pd_name p)) (of_ty (pd_type p)) (of_body (pd_body p)) (of_origin (pd_origin p)).
+(* a value of self.types: ParamType(stan, origin) or None *)
+Definition val_of_ptype (o : option (tyref * origin)) : val :=
+  match o with Some (t, og) => VObj KParamType VNone (VStan t) VNone (VOrigin og) | None => VNone end.
+Fixpoint pdescs_of (l : list val) : option (list pdesc) :=
+  match l with
+  | [] => Some []
+  | v :: l' => match pdesc_of v, pdescs_of l' with Some p, Some r => Some (p :: r) | _, _ => None end
+  end.
+Definition get_fld (fl : ofld) (v : val) : option val :=
+  match v with
+  | VObj _ name ty body org => Some match fl with FName => name | FType => ty | FBody => body | FOrigin => org end
+  | _ => None
+  end.
+
 Definition set_fld (fl : ofld) (x : val) (v : val) : option val :=
   match v with
   | VObj c name ty body org =>
@@ -154,6 +197,8 @@ Definition truthy (v : val) : bool :=
   | VBool b => b
   | VName n => match pn_text n with [] => false | _ => true end
   | VList l => match l with [] => false | _ => true end
+  | VDict d => match d with [] => false | _ => true end
+  | VInt n => negb (Nat.eqb n 0)
   | _ => true
   end.
 
@@ -163,7 +208,7 @@ Definition is_none (v : val) : bool := match v with VNone => true | _ => false e
 Definition val_eqb (a b : val) : bool :=
   match to_text' a, to_text' b with
   | Some x, Some y => text_eqb x y
-  | _, _ => match a, b with VNone, VNone => true | _, _ => false end
+  | _, _ => match a, b with VNone, VNone => true | VInt x, VInt y => Nat.eqb x y | _, _ => false end
   end.
 
 (* `is not`: the bodies only use it between field.source and self.obj *)
@@ -172,10 +217,43 @@ Definition val_is (a b : val) : bool :=
 
 Record mstate := { ms_st : state; ms_msgs : list (nat * text) }.
 
-Inductive result := RNormal (loc : var -> val) (ms : mstate) | RReturn (v : val) (ms : mstate) | RStuck.
+Inductive result := RNormal (loc : var -> val) (ms : mstate) | RReturn (v : val) (ms : mstate) | RContinue (loc : var -> val) (ms : mstate) | RStuck.
 
 Definition loc0 : var -> val := fun _ => VNone.
 Definition setv (loc : var -> val) (x : var) (v : val) : var -> val := fun y => if Nat.eqb x y then v else loc y.
+
+(* for x in l: body *)
+Fixpoint for_loop (run : (var -> val) -> mstate -> result) (x : var) (l : list val) (loc : var -> val) (ms : mstate) : result :=
+  match l with
+  | [] => RNormal loc ms
+  | v :: l' => match run (setv loc x v) ms with
+               | RNormal loc1 ms1 | RContinue loc1 ms1 => for_loop run x l' loc1 ms1
+               | r => r
+               end
+  end.
+
+(* for i, (k, v) in enumerate(items): body *)
+Fixpoint for_enum (run : (var -> val) -> mstate -> result) (i k v : var) (n : nat) (l : list (val * val))
+         (loc : var -> val) (ms : mstate) : result :=
+  match l with
+  | [] => RNormal loc ms
+  | (a, b) :: l' => match run (setv (setv (setv loc i (VInt n)) k a) v b) ms with
+                    | RNormal loc1 ms1 | RContinue loc1 ms1 => for_enum run i k v (S n) l' loc1 ms1
+                    | r => r
+                    end
+  end.
+
+Definition cls_eqb (a b : cls) : bool :=
+  match a, b with
+  | KReturnDesc, KReturnDesc | KFieldDesc, KFieldDesc | KParamDesc, KParamDesc | KKeywordDesc, KKeywordDesc
+  | KRaisesDesc, KRaisesDesc | KParamType, KParamType => true
+  | _, _ => false
+  end.
+Definition fkind_eqb (a b : fkind) : bool :=
+  match a, b with
+  | FFunction, FFunction | FMethod, FMethod | FClassMethod, FClassMethod | FStaticMethod, FStaticMethod => true
+  | _, _ => false
+  end.
 
 Section Exec.
   Variable E : env.
@@ -196,6 +274,7 @@ Section Exec.
     | ETheObj => Some VTheObj
     | ESelf AReturn => Some (match st_ret st with Some r => val_of_rdesc r | None => VNone end)
     | ESelf AYields => Some (match st_yld st with Some y => val_of_ydesc y | None => VNone end)
+    | ESelf AParams => Some (VList (map val_of_pdesc (st_pdescs st)))
     | ESelf _ => None
     | ECtor c n t b o =>
       match eval loc st n, eval loc st t, eval loc st b, eval loc st o with
@@ -224,8 +303,14 @@ Section Exec.
       | Some t => Some (vstr t)
       | None => None
       end
-    | ESigNames => Some (VList (map (fun p => VName (fst p)) (e_sig E)))
+    | ESigNames => Some (VList (map VName (map fst (e_sig E))))
     | ECtorNames => Some (VList (map VName (e_ctor E)))
+    | EBool b => Some (VBool b)
+    | EInt n => Some (VInt n)
+    | EEmptyList => Some (VList [])
+    | EFld e1 fl => match eval loc st e1 with Some v => get_fld fl v | None => None end
+    | EParamsByName => Some (VDict (map (fun e => (fst e, val_of_pdesc (snd e))) (params_dict (st_pdescs st))))
+    | EValues e1 => match eval loc st e1 with Some (VDict d) => Some (VList (map snd d)) | _ => None end
     end.
 
   Definition obj_is (k : objclass) : bool :=
@@ -271,6 +356,16 @@ Section Exec.
                    | None => None
                    end
     | CDocformatGN => Some (e_gn E)
+    | CIsKwName e => match eval loc st e with
+                     | Some (VName n) => Some (match pn_star n with SKw => true | _ => false end)
+                     | _ => None
+                     end
+    | CIsCls e c => match eval loc st e with Some (VObj c' _ _ _ _) => Some (cls_eqb c' c) | _ => None end
+    | CKindIs k => Some (match e_obj E with OFunction k' => fkind_eqb k' k | _ => false end)
+    | CIsDocumented e => match eval loc st e with
+                         | Some v => option_map pdesc_documented (pdesc_of v)
+                         | None => None
+                         end
     end.
 
   Definition upd (ms : mstate) (st : state) : mstate := {| ms_st := st; ms_msgs := ms_msgs ms |}.
@@ -310,6 +405,7 @@ Section Exec.
       match eval loc st e, a with
       | Some v, AReturn => match rdesc_of v with Some r => RNormal loc (upd ms (set_ret (Some r) st)) | None => RStuck end
       | Some v, AYields => match ydesc_of v with Some y => RNormal loc (upd ms (set_yld (Some y) st)) | None => RStuck end
+      | Some (VList l), AParams => match pdescs_of l with Some ds => RNormal loc (upd ms (set_pdescs ds st)) | None => RStuck end
       | _, _ => RStuck
       end
     | SSetSelfFld a fl e =>
@@ -382,16 +478,49 @@ Section Exec.
     | SReturn e => match eval loc st e with Some v => RReturn v ms | None => RStuck end
     | SFor x e body =>
       match eval loc st e with
-      | Some (VList l) =>
-        (fix go (l : list val) (loc : var -> val) (ms : mstate) : result :=
-           match l with
-           | [] => RNormal loc ms
-           | v :: l' => match exec body (setv loc x v) ms with
-                        | RNormal loc1 ms1 => go l' loc1 ms1
-                        | r => r
-                        end
-           end) l loc ms
+      | Some (VList l) => for_loop (exec body) x l loc ms
       | _ => RStuck
+      end
+    | SForEnumItems i k v a body =>
+      match a with
+      | ATypes => for_enum (exec body) i k v 0 (map (fun e => (VName (fst e), val_of_ptype (snd e))) (st_types st)) loc ms
+      | _ => RStuck
+      end
+    | SContinue => RContinue loc ms
+    | STryPop x d k handler els =>
+      match loc d, eval loc st k with
+      | VDict dd, Some kv =>
+        match to_text' kv with
+        | Some t => match dict_pop t dd with
+                    | Some (v, dd') => exec els (setv (setv loc d (VDict dd')) x v) ms
+                    | None => exec handler loc ms
+                    end
+        | None => RStuck
+        end
+      | _, _ => RStuck
+      end
+    | SSetVarFld x fl e =>
+      match eval loc st e with
+      | Some v => match set_fld fl v (loc x) with Some o => RNormal (setv loc x o) ms | None => RStuck end
+      | None => RStuck
+      end
+    | SVarAppend x e =>
+      match loc x, eval loc st e with
+      | VList l, Some v => RNormal (setv loc x (VList (l ++ [v]))) ms
+      | _, _ => RStuck
+      end
+    | SVarExtend x e =>
+      match loc x, eval loc st e with
+      | VList l, Some (VList l2) => RNormal (setv loc x (VList (l ++ l2))) ms
+      | _, _ => RStuck
+      end
+    | SRemove a e =>
+      match a, eval loc st e with
+      | AParams, Some v => match pdesc_of v with
+                           | Some p => RNormal loc (upd ms (set_pdescs (remove_first p (st_pdescs st)) st))
+                           | None => RStuck
+                           end
+      | _, _ => RStuck
       end
     end.
 End Exec.
@@ -402,7 +531,8 @@ Record fcode := {
   c_param_name : stmt;                       (* _handle_param_name(field) *)
   c_not_found : stmt; c_not_found_name : var; (* _handle_param_not_found(name, field): the local that holds `name` *)
   c_handler : handler -> stmt;               (* the function each handle_<tag> attribute is bound to *)
-  c_unknown : stmt                           (* handleUnknownField(field) *)
+  c_unknown : stmt;                          (* handleUnknownField(field) *)
+  c_resolve : stmt                           (* resolve_types() *)
 }.
 
 (* what a method call yields: its return value (None when it falls off the end) and the state *)
@@ -410,6 +540,7 @@ Definition finish (r : result) : option (val * mstate) :=
   match r with
   | RNormal _ ms => Some (VNone, ms)
   | RReturn v ms => Some (v, ms)
+  | RContinue _ _ => None          (* `continue` outside a loop *)
   | RStuck => None
   end.
 
@@ -431,13 +562,40 @@ Section Run.
     end.
 
   (* FieldHandler.handle: getattr(self, 'handle_' + field.tag, self.handleUnknownField)(field) *)
-  Definition handle_ir (st : state) : option mstate :=
+  Definition handle_ir (ms : mstate) : option mstate :=
     let body := match lookup_handler (f_tag fld) handler_table with
                 | Some h => c_handler C h
                 | None => c_unknown C
                 end in
-    match finish (exec E idx fld call1 body loc0 {| ms_st := st; ms_msgs := [] |}) with
-    | Some (_, ms) => Some ms
+    match finish (exec E idx fld call1 body loc0 ms) with
+    | Some (_, ms') => Some ms'
     | None => None
     end.
 End Run.
+
+(* for field in fields: fh.handle(field) *)
+Fixpoint handle_all_ir (C : fcode) (E : env) (i : nat) (fs : list field) (ms : mstate) : option mstate :=
+  match fs with
+  | [] => Some ms
+  | f :: fs' => match handle_ir C E i f ms with
+                | Some ms' => handle_all_ir C E (S i) fs' ms'
+                | None => None
+                end
+  end.
+
+(* fh.resolve_types(): it calls nothing of self and reads no field *)
+Definition resolve_ir (C : fcode) (E : env) (ms : mstate) : option mstate :=
+  match finish (exec E 0 {| f_tag := []; f_arg := None |} call0 (c_resolve C) loc0 ms) with
+  | Some (_, ms') => Some ms'
+  | None => None
+  end.
+
+(* format_docstring's use of FieldHandler, on the translated code: handle every field, then resolve_types for a function *)
+Definition final_ir (C : fcode) (E : env) (fs : list field) : option mstate :=
+  match handle_all_ir C E 0 fs {| ms_st := init_state E; ms_msgs := [] |} with
+  | Some ms => match e_obj E with
+               | OFunction _ => resolve_ir C E ms
+               | _ => Some ms
+               end
+  | None => None
+  end.
